@@ -36,7 +36,26 @@ m = {
     "engines": [
         {"name": "rocq-model", "path": "coq/", "serves_properties": [c["property_id"] for c in checks], "kind_free_text": "Coq 8.16.1 development: executable model, refinement proofs, Properties.v"},
         {"name": "synth", "path": "harness/synth.py", "serves_properties": [c["property_id"] for c in checks if "synth" in c["engine"]], "kind_free_text": "synthetic provider-set trees through the real analysis (verif hook) vs the model, compared by vm_compute"},
-    ],
+    ] + [{"name": n, "path": "harness/" + f, "serves_properties": [c["property_id"] for c in checks if n in c["engine"].split("+")], "kind_free_text": t} for n, f, t in [
+        ("prog", "engprog.py", "whole Go modules rendered from abstract programs through wire gen, go build and traced runs vs Emit.generate1 / Exec (vm_compute) and the property oracles"),
+        ("multi", "multieng.py", "sibling injectors of one package: independence, value variables, permuted items"),
+        ("layouts", "layouteng.py", "hand-written programs in varying package layouts, generated, compiled and run against their expected output"),
+        ("forms", "formeng.py", "hand-written and grammar-generated spellings of the marker calls through gen and check: diagnostics contract, compile oracle"),
+        ("front", "fronteng.py", "marker calls over known go/types shapes vs FrontRules.v"),
+        ("body", "bodyeng.py", "injector bodies over the statement kinds of findInjectorBuild vs InjBody.v"),
+        ("seq", "seqeng.py", "file layout of wire_gen.go (sections, injectors, copied declarations) vs Layout.v"),
+        ("show", "showeng.py", "wire show output vs Show.v and the property's wording"),
+        ("cli", "clieng.py", "gen / diff / check / show invocations and histories vs Cli.v and the command-line contract"),
+        ("determinism", "deteng.py", "byte comparison of outputs across repeats, locations, patterns and module / GOPATH / vendor layouts"),
+        ("rename", "renameeng.py", "the real rewritePkgRefs on generated functions (hook renameprobe) vs Rename.v"),
+        ("paths", "patheng.py", "vendor stripping, importableFrom, isWireImport (hook pathprobe) vs Paths.v"),
+        ("access", "accesseng.py", "accessibleFrom on generated expressions (hook accessprobe) vs AccessRules.v"),
+        ("copyprobe", "probeeng.py", "copyAST on every go/ast node type and field: regenerated table theorem"),
+        ("copydecls", "probeeng.py", "declaration corpus copied from an injector file: structure and behaviour"),
+        ("valuetable", "probeeng.py", "processValue on expression forms: regenerated table vs Front.value_ok"),
+        ("funcoutput", "props.py", "funcOutput on all result lists up to length 4: regenerated table theorem"),
+        ("zerovalue", "props.py", "zeroValue on every type kind: regenerated table theorem, expressions compiled"),
+    ] if any(n in c["engine"].split("+") for c in checks)],
     "checks": checks,
     "not_applicable": na,
     "notes": "All checks rebuild wire and the verif hook command from /repo's working tree on every run. Evidence is rewritten by every run.",
